@@ -21,11 +21,7 @@ ops
         * the interpreter gives them different meanings and some lambda parameter is named like a
           global function — `class=shadowed-global`;
         * anything else is reported without a class.
-        Programs that mention the variadic functions `collection` / `call` (real functions of the table
-        whose values the interpreter and VM models do not have) are judged by the predicate alone:
-        equal outcomes `ok`, else `propfail evalpair outcomes-differ` (class `shadowed-global` if a
-        parameter is named like a global function).  The `simplify` op is checked against the model for
-        them like for every program (`Simplify.tableArgcV`: the table with `IsVariadic`).
+        The variadic functions `collection` / `call` of the table are in the models (`Builtin.variadic`).
 -/
 open B6.Driver B6.Model
 namespace B6.Driver.C22
@@ -40,10 +36,6 @@ def splitTwo (s : String) : Option (String × String) :=
   match s.splitOn " ;; " with
   | [a, b] => some (a, b)
   | _ => none
-
-/-- the program mentions one of the variadic functions of the table (`collection`, `call`), which the
-interpreter and VM models do not have: such programs are judged by the property predicate alone -/
-def unmodelled (e : Expr) : Bool := Simplify.mentions "collection" e || Simplify.mentions "call" e
 
 def step (_ : Unit) (op impl : String) : Unit × Verdict :=
   match words op with
@@ -67,15 +59,6 @@ def step (_ : Unit) (op impl : String) : Unit × Verdict :=
     match Expr.parse (sdrop op 9) with
     | none => ((), .bad)
     | some e =>
-      if unmodelled e then
-        -- differential only: the value semantics of the variadic functions is outside the models
-        match splitTwo impl with
-        | some (ae, as) =>
-          ((), if ae == as then .ok
-               else if Simplify.shadowsGlobal e then .propfail "evalpair class=shadowed-global"
-               else .propfail ("evalpair outcomes-differ " ++ ae ++ " ;; " ++ as))
-        | none => ((), .bad)
-      else
       match simplify e, splitTwo impl with
       | some s, some (ae, as) =>
         let ie := renderFlat (interp fuel e)
